@@ -14,6 +14,23 @@ items = stubs_of(N.UNIT.items, "nego")
 items += [x for x in stubs_of(P.UNIT.items, "per")]
 A = items.append
 
+# per::write_numeric_string / per::write_padding: unit per proves them total but says nothing about the bytes they emit; the byte-exact
+# T.124 wrapper (C04/C18 `t124-wrapper`) needs them, so the two REAL bodies are RE-VERIFIED here against per's clauses plus one byte
+# clause each (nothing assumed; same pattern as tpkt::Client::new in unit nego)
+def _reverify(name, **kw):
+    ix = [i for i, x in enumerate(items) if x.kind == "stub" and x.name == name and x.mod == "per"]
+    assert len(ix) == 1
+    old = items[ix[0]]
+    items[ix[0]] = Fn(P.PER, name, mod="per", requires=list(old.requires), ensures=list(old.ensures) + kw.pop("ensures"), **kw)
+_reverify("write_numeric_string", props=["C18"], nloops=1,
+          ensures=[("C18", "one-digit", "r is Ok && string@ =~= seq![0x31u8] && minimum == 1 ==> final(s).written() =~= old(s).written() + seq![0u8, 0x10u8]")],
+          pre="proof { reveal_with_fuel(ser, 3); reveal_with_fuel(ser_seq_from, 3); }",
+          hints=[(r"\(\(c1 << 4\) \| c2\)\.write\(s\)\?;", 1, "proof { if string@ =~= seq![0x31u8] { assert(c1 == 1 && c2 == 0); assert((1u8 << 4u8) | 0u8 == 0x10u8) by(bit_vector); } }", "before")],
+          loops={1: """invariant forall|k: int| 0 <= k < string@.len() ==> 0x30 <= #[trigger] string@[k] <= 0x39,
+            string@ =~= seq![0x31u8] && minimum == 1 ==> s.written() =~= old(s).written() + seq![0u8] + (if i == 0 { Seq::<u8>::empty() } else { seq![0x10u8] }),"""})
+_reverify("write_padding", props=["C18"],
+          ensures=[("C18", "zeros", "r is Ok ==> final(s).written() =~= old(s).written() + Seq::new(length as nat, |i: int| 0u8)")])
+
 # ---------------- gcc.rs
 for e in ("Version", "ColorDepth", "Sequence", "KeyboardLayout", "KeyboardType", "HighColor", "Support", "CapabilityFlag", "EncryptionMethod", "EncryptionLevel", "MessageType"):
     A(Item(GCC, "enum", e, mod="gcc", strip_derive=["Hash"], add_derive=("Copy, Clone" if e in ("ColorDepth", "Sequence", "KeyboardType", "HighColor", "Support", "CapabilityFlag", "EncryptionMethod", "EncryptionLevel", "MessageType") else None)))
@@ -23,6 +40,24 @@ A(Item(GCC, "struct", "ClientData", mod="gcc"))
 A(Item(GCC, "struct", "ServerData", mod="gcc"))
 A(Raw(r"""
 impl KeyView for MessageType { type KV = MessageType; open spec fn kv(&self) -> MessageType { *self } }
+/// vstd's specification of core::convert::From: the conversion tables as spec functions (the real bodies are PROVED equal to them)
+impl vstd::std_specs::convert::FromSpecImpl<u32> for Version {
+    open spec fn obeys_from_spec() -> bool { true }
+    open spec fn from_spec(e: u32) -> Version { if e == 0x00080001 { Version::RdpVersion } else if e == 0x00080004 { Version::RdpVersion5plus } else { Version::Unknown } }
+}
+impl vstd::std_specs::convert::FromSpecImpl<u16> for MessageType {
+    open spec fn obeys_from_spec() -> bool { true }
+    open spec fn from_spec(e: u16) -> MessageType {
+        if e == 0x0C01 { MessageType::ScCore } else if e == 0x0C02 { MessageType::ScSecurity } else if e == 0x0C03 { MessageType::ScNet }
+        else if e == 0xC001 { MessageType::CsCore } else if e == 0xC002 { MessageType::CsSecurity } else if e == 0xC003 { MessageType::CsNet }
+        else if e == 0xC004 { MessageType::CsCluster } else if e == 0xC005 { MessageType::CsMonitor } else { MessageType::Unknown }
+    }
+}
+/// loop invariant of read_conference_create_response: a recorded server block still has the layout it was read into (Message::read keeps field names)
+pub open spec fn blocks_ok(m: Map<MessageType, Component>) -> bool {
+    (m.contains_key(MessageType::ScNet) ==> has_key(m[MessageType::ScNet].fields(), "channelIdArray"@))
+    && (m.contains_key(MessageType::ScCore) ==> has_key(m[MessageType::ScCore].fields(), "rdpVersion"@))
+}
 /// TS_UD_HEADER (MS-RDPBCGR 2.2.1.3.1): type, length INCLUDING the 4 header bytes
 pub open spec fn ud_header(ty: u16, body_len: int) -> Seq<u8> { le16(ty) + le16((body_len + 4) as u16) }
 /// T.124 ConferenceCreateRequest wrapper of the client data blocks (MS-RDPBCGR 2.2.1.3): key OID 0.0.20.124.0.1, connect-data length,
@@ -34,23 +69,46 @@ pub open spec fn gcc_ccr(user_data: Seq<u8>) -> Seq<u8> {
 """, mod="gcc", name="gcc_specs"))
 def GF(name, impl=None, **kw):
     A(Fn(GCC, name, impl=impl, mod="gcc", **kw))
+def len_chain(res, sizes):
+    """proof hint (checked): ser_fields_from unfolded one field at a time from the last field; sizes[i] = wire size of field i"""
+    n = len(sizes)
+    out = ["proof { let f = %s.fields(); let e = Set::<Seq<char>>::empty(); assert(ser_fields_from(f, %d, e).len() == 0);" % (res, n)]
+    tot = 0
+    for i in range(n - 1, -1, -1):
+        tot += sizes[i]
+        out.append("assert(ser(f[%d].1).len() == %d); assert(ser_fields_from(f, %d, e).len() == %d);" % (i, sizes[i], i, tot))
+    return "\n    ".join(out) + " }"
+CORE_SIZES = [4, 2, 2, 2, 2, 4, 4, 32, 4, 4, 4, 64, 2, 2, 4, 2, 2, 2, 64, 1, 1, 4]
+assert sum(CORE_SIZES) == 212
 GF("from", impl=r"From<u32> for Version", props=["C18", "C05"],
    ensures=[("C18", "named-versions", "(e == 0x00080001 ==> r == Version::RdpVersion) && (e == 0x00080004 ==> r == Version::RdpVersion5plus) && (e != 0x00080001 && e != 0x00080004 ==> r == Version::Unknown)")])
 GF("from", impl=r"From<u16> for MessageType", props=["C05"])
-GF("client_core_data", ret="c", props=["C04"],
+GF("client_core_data", ret="c", props=["C04"], fuel=3, post=len_chain("c", CORE_SIZES),
    ensures=shape_clauses(GCC, "client_core_data", res="c") + [("C04", "fixed-size-212", "ser(c.mv()).len() == 212"), ("C04", "client-name-32-bytes", "c.fields()[7].1 is Bytes && c.fields()[7].1->Bytes_0.len() == 32")])
 GF("server_core_data", ret="c", props=["C05"], ensures=shape_clauses(GCC, "server_core_data", res="c"))
-GF("client_security_data", ret="c", props=["C04"], ensures=shape_clauses(GCC, "client_security_data", res="c") + [("C04", "size", "ser(c.mv()).len() == 8")])
+GF("client_security_data", ret="c", props=["C04"], fuel=4, ensures=shape_clauses(GCC, "client_security_data", res="c") + [("C04", "size", "ser(c.mv()).len() == 8")])
 GF("server_security_data", ret="c", props=["C05"], ensures=shape_clauses(GCC, "server_security_data", res="c"))
 GF("channel_def", ret="c", props=["C04"], ensures=shape_clauses(GCC, "channel_def", res="c"))
-GF("client_network_data", ret="c", props=["C04"], ensures=shape_clauses(GCC, "client_network_data", res="c") + [("C04", "count", "ser(c.mv()) =~= le32(channel_def_array@.len() as u32) + ser(channel_def_array.mv())")])
-GF("server_network_data", ret="c", props=["C05"], ensures=shape_clauses(GCC, "server_network_data", res="c"))
-GF("block_header", ret="c", props=["C04", "C05"], requires=["(if length is Some { length->Some_0 } else { 0 }) <= 0xfffb"],
+GF("client_network_data", ret="c", props=["C04"], fuel=4, ensures=shape_clauses(GCC, "client_network_data", res="c") + [("C04", "count", "ser(c.mv()) =~= le32(channel_def_array@.len() as u32) + ser(channel_def_array.mv())")])
+GF("server_network_data", ret="c", props=["C05"],
+   closures={1: dict(params="count: &U16", ret="-> (r: MessageOption)", spec='ensures r.ov() == OV::Size("channelIdArray"@, (count.val() as usize * 2) as usize)'),
+             2: dict(params="", ret="-> (r: U16)", spec="ensures r == U16::LE(0)")},
+   ensures=shape_clauses(GCC, "server_network_data", res="c"))
+GF("block_header", ret="c", props=["C04", "C05"], fuel=4, pre="proof { reveal_with_fuel(is_static, 3); }", requires=["(if length is Some { length->Some_0 } else { 0 }) <= 0xfffb"],
    ensures=shape_clauses(GCC, "block_header", res="c") + [("C04", "bytes", "ser(c.mv()) =~= ud_header((if data_type is Some { data_type->Some_0 as u16 } else { 0xC001u16 }), (if length is Some { length->Some_0 as int } else { 0 }))"), (None, "static", "is_static(c.mv())")])
 GF("write_conference_create_request", props=["C04", "C18", "C03"], requires=["user_data@.len() + 14 <= 0x7fff"],
+   hints=[(r"per::write_object_identifier\(", 1, "proof { assert((0u8 << 4u8) | (0u8 & 0xfu8) == 0u8) by(bit_vector); assert(result.written() =~= seq![0u8, 5u8, 0u8, 20u8, 124u8, 0u8, 1u8]); }"),
+          (r"per::write_length\(", 1, "let ghost w1 = result.written(); proof { assert(w1 =~= seq![0u8, 5u8, 0u8, 20u8, 124u8, 0u8, 1u8] + per::per_len((user_data@.len() + 14) as u16)); }"),
+          (r"per::write_padding\(", 1, "proof { assert(Seq::new(1nat, |i: int| 0u8) =~= seq![0u8]); assert(result.written() =~= w1 + seq![0u8, 8u8, 0u8, 0x10u8, 0u8]); }"),
+          (r"per::write_octet_stream\(&H221_CS_KEY", 1, "proof { assert(per::per_len(0u16) =~= seq![0u8]); assert(result.written() =~= w1 + seq![0u8, 8u8, 0u8, 0x10u8, 0u8, 1u8, 0xc0u8, 0u8, 0x44u8, 0x75u8, 0x63u8, 0x61u8]); }")],
    ensures=[("C04,C18", "t124-wrapper", "r is Ok ==> r->Ok_0@ =~= gcc_ccr(user_data@)")])
 GF("read_conference_create_response", props=["C05"],
    body_sub=[(r"cc_response\.take\(length as u64\)", "take_reader(cc_response, length as u64)")],
+   nloops=2,
+   loops={1: """invariant blocks_ok(result.m()),
+        decreases sub.rest().len()"""},
+   hints=[(r"server_core\.read\(", 1, "proof { assert(server_core.fields()[0].0 == \"rdpVersion\"@); }"),
+          (r"server_net\.read\(", 1, "proof { assert(server_net.fields()[2].0 == \"channelIdArray\"@); }")],
    ensures=[("C05", "monotone", "true")])
 
 # ---------------- mcs.rs
@@ -76,6 +134,31 @@ pub open spec fn attach_user_bytes() -> Seq<u8> { seq![0x28u8] }
 pub open spec fn channel_join_bytes(uid: u16, cid: u16) -> Seq<u8> { seq![0x38u8] + be16((uid - 1001) as u16) + be16(cid) }
 pub open spec fn disconnect_ultimatum_bytes() -> Seq<u8> { seq![0x21u8, 0x80u8, 0u8, 0u8, 0u8, 0u8, 0u8, 0u8] }
 pub open spec fn frame(payload: Seq<u8>) -> Seq<u8> { tpkt_frame(x224_data(payload)) }
+pub proof fn lemma_prefix_trans(a: Seq<u8>, b: Seq<u8>, c: Seq<u8>)
+    requires is_prefix(a, b), is_prefix(b, c)
+    ensures is_prefix(a, c)
+{
+    assert forall|i: int| 0 <= i < a.len() implies #[trigger] a[i] == c[i] by { assert(a[i] == b[i] && b[i] == c[i]); }
+}
+pub proof fn lemma_suffix_trans(a: Seq<u8>, b: Seq<u8>, c: Seq<u8>)
+    requires is_suffix(a, b), is_suffix(b, c)
+    ensures is_suffix(a, c)
+{
+    assert forall|i: int| 0 <= i < a.len() implies #[trigger] a[i] == c[c.len() - a.len() + i] by {
+        assert(a[i] == b[b.len() - a.len() + i]);
+        assert(b[b.len() - a.len() + i] == c[c.len() - b.len() + (b.len() - a.len() + i)]);
+    }
+}
+/// the T.125 DomainMCSPDU choice bytes used by this client: (choice << 2) | options
+pub proof fn lemma_pdu_headers()
+    ensures (1u8 << 2u8) | 0u8 == 0x04u8, (8u8 << 2u8) | 1u8 == 0x21u8, (10u8 << 2u8) | 0u8 == 0x28u8, (11u8 << 2u8) | 0u8 == 0x2cu8,
+        (14u8 << 2u8) | 0u8 == 0x38u8, (15u8 << 2u8) | 0u8 == 0x3cu8, (25u8 << 2u8) | 0u8 == 0x64u8, (26u8 << 2u8) | 0u8 == 0x68u8,
+        0x2cu8 >> 2u8 == 11u8, 0x3cu8 >> 2u8 == 15u8,
+{
+    assert((1u8 << 2u8) | 0u8 == 0x04u8 && (8u8 << 2u8) | 1u8 == 0x21u8 && (10u8 << 2u8) | 0u8 == 0x28u8 && (11u8 << 2u8) | 0u8 == 0x2cu8
+        && (14u8 << 2u8) | 0u8 == 0x38u8 && (15u8 << 2u8) | 0u8 == 0x3cu8 && (25u8 << 2u8) | 0u8 == 0x64u8 && (26u8 << 2u8) | 0u8 == 0x68u8
+        && 0x2cu8 >> 2u8 == 11u8 && 0x3cu8 >> 2u8 == 15u8) by(bit_vector);
+}
 """, mod="mcs", name="mcs_specs"))
 def MF(name, impl=None, **kw):
     A(Fn(MCS, name, impl=impl, mod="mcs", **kw))
@@ -84,18 +167,35 @@ A(Stub(MCS, "connect_initial", mod="mcs", why=DER_WHY))
 A(Stub(MCS, "connect_response", mod="mcs", why=DER_WHY, ensures=["r.inner.skeys().contains(\"userData\"@) && r.inner.octet_keys().contains(\"userData\"@)"]))
 MF("mcs_pdu_header", props=["C04", "C03"], ensures=[("C04", "choice-and-options", "r == (((if pdu is Some { pdu->Some_0 as u8 } else { 11u8 }) << 2) | (if options is Some { options->Some_0 } else { 0u8 }))")],
    requires=["true"])
-MF("read_attach_user_confirm", props=["C05", "C03"],
+# `confirm` = trame![u8, Vec (read to end)]: a plain layout, so the bytes consumed are ser(confirm) = [header] + body (Message::read, is_plain clause)
+CONFIRM_PRE = "let ghost b = buffer.rest(); proof { lemma_pdu_headers(); reveal_with_fuel(is_plain, 3); reveal_with_fuel(same_shape, 3); }"
+CONFIRM_HINTS = [(r"confirm\.read\(buffer\)\?;", 1, "let ghost m0 = confirm.mv(); proof { assert(m0->Trame_0 =~= seq![MV::U8(0), MV::Bytes(Seq::empty())]); assert(is_plain(m0)); }", "before"),
+                 (r"confirm\.read\(buffer\)\?;", 1, """let ghost m = confirm.mv(); let ghost body = m->Trame_0[1]->Bytes_0;
+    proof {
+        let s = m->Trame_0;
+        assert(same_shape(m0->Trame_0[0], s[0]) && same_shape(m0->Trame_0[1], s[1]));
+        assert(ser(m) =~= seq![s[0]->U8_0] + body);
+        assert(b == ser(m) + buffer.rest());
+        assert(b[0] == s[0]->U8_0);
+        assert(forall|k: int| 0 <= k < body.len() ==> b[1 + k] == body[k]);
+    }"""),
+                 (r"let mut request = Cursor::new", 1, "proof { assert(request.rest() =~= body); }")]
+MF("read_attach_user_confirm", props=["C05", "C03"], fuel=4, pre=CONFIRM_PRE, hints=CONFIRM_HINTS,
    ensures=[("C03", "assigned-user-id", "r is Ok ==> old(buffer).rest().len() >= 4 && old(buffer).rest()[0] >> 2 == 11 && old(buffer).rest()[1] == 0 && r->Ok_0 as int == u16_be(old(buffer).rest()[2], old(buffer).rest()[3]) as int + 1001"),
             ("C03", "at-least-1001", "r is Ok ==> r->Ok_0 >= 1001")])
-MF("attach_user_request", props=["C03", "C04"], ensures=[("C03", "byte", "r == 0x28")])
-MF("erect_domain_request", props=["C03", "C04"], fuel=6, ensures=[("C03,C04", "bytes", "r is Ok && ser(r->Ok_0.mv()) =~= erect_domain_bytes()")])
-MF("channel_join_request", props=["C03", "C04"], fuel=6, requires=["user_id is Some ==> user_id->Some_0 >= 1001"],
+MF("attach_user_request", props=["C03", "C04"], pre="proof { lemma_pdu_headers(); }", ensures=[("C03", "byte", "r == 0x28")])
+MF("erect_domain_request", props=["C03", "C04"], fuel=6, pre="proof { lemma_pdu_headers(); }", ensures=[("C03,C04", "bytes", "r is Ok ==> ser(r->Ok_0.mv()) =~= erect_domain_bytes()")])
+MF("channel_join_request", props=["C03", "C04"], fuel=6, pre="proof { lemma_pdu_headers(); }", requires=["user_id is Some ==> user_id->Some_0 >= 1001"],
    ensures=[("C03,C04", "bytes", "r is Ok && ser(r->Ok_0.mv()) =~= channel_join_bytes((if user_id is Some { user_id->Some_0 } else { 1001u16 }), (if channel_id is Some { channel_id->Some_0 } else { 0u16 }))")])
-MF("read_channel_join_confirm", props=["C05", "C03"],
+MF("read_channel_join_confirm", props=["C05", "C03"], fuel=4, pre=CONFIRM_PRE, hints=CONFIRM_HINTS,
    ensures=[("C03", "confirms-the-requested-ids", "r is Ok ==> old(buffer).rest().len() >= 6 && old(buffer).rest()[0] >> 2 == 15 && user_id as int == u16_be(old(buffer).rest()[2], old(buffer).rest()[3]) as int + 1001 && channel_id == u16_be(old(buffer).rest()[4], old(buffer).rest()[5]) && r->Ok_0 == (old(buffer).rest()[1] == 0)")])
 MF("new", impl=r"Client<S>", props=["C03"], ensures=["r.uid() is None && r.chans() == Map::<Seq<char>, u16>::empty() && r.written() == x224.written() && r.rest() == x224.rest() && r.tls() == x224.tls()"])
 FRAME_CL = [(None, "frame", "final(self).tls() == old(self).tls() && is_prefix(old(self).written(), final(self).written()) && is_suffix(final(self).rest(), old(self).rest())")]
-MF("write_connect_initial", impl=r"Client<S>", props=["C03", "C04"], requires=["client_name@.len() <= 1024"],
+MF("write_connect_initial", impl=r"Client<S>", props=["C03", "C04"], requires=["client_name@.len() <= 1024"], fuel=10,
+   hints=[(r"let user_data = to_vec", 1, "proof { assert(ser(client_network_data.mv()).len() == 4); }", "before"),
+          (r"let conference = ", 1, "proof { assert(user_data@.len() == 236); }", "before"),
+          (r"self\.x224\.write\(to_der", 1, "let ghost w0 = self.x224.written();", "before")],
+   post="proof { if r is Ok { let ci = self.x224.written().subrange(w0.len() as int + 7, self.x224.written().len() as int); assert(self.x224.written() =~= w0 + frame(ci)); assert(frame(ci).len() > 0); } }",
    ensures=FRAME_CL + [("C03", "one-connect-initial", "r is Ok ==> exists|ci: Seq<u8>| #[trigger] frame(ci).len() > 0 && final(self).written() =~= old(self).written() + frame(ci)"),
                        (None, "ids", "final(self).uid() == old(self).uid() && final(self).chans() == old(self).chans()")])
 MF("read_connect_response", impl=r"Client<S>", props=["C05", "C03"],
@@ -103,15 +203,56 @@ MF("read_connect_response", impl=r"Client<S>", props=["C05", "C03"],
                        ("C03", "server-data-recorded", "r is Ok ==> final(self).server_data is Some")])
 MF("connect", impl=r"Client<S>", props=["C03", "C05"], requires=["client_name@.len() <= 1024", "old(self).uid() is None", "old(self).chans() == Map::<Seq<char>, u16>::empty()"],
    body_sub=[(r"for channel_id in self\.channel_ids\.values\(\) \{", "let __channel_ids = hashmap_values(&self.channel_ids); for channel_id in __channel_ids.iter() {")],
+   nloops=1,
+   pre="let ghost w0 = self.x224.written(); let ghost r0 = self.x224.rest(); proof { lemma_pdu_headers(); }",
+   hints=[(r"self\.read_connect_response\(\)\?;", 1, """let ghost ci = choose|ci: Seq<u8>| #[trigger] frame(ci).len() > 0 && self.x224.written() =~= w0 + frame(ci);
+        let ghost w1 = self.x224.written(); let ghost r1 = self.x224.rest();
+        proof { assert(w1 =~= w0 + frame(ci)); }""", "before"),
+          (r"self\.read_connect_response\(\)\?;", 1, "let ghost r2 = self.x224.rest(); proof { lemma_suffix_trans(r2, r1, r0); }"),
+          (r"self\.x224\.write\(erect_domain_request\(\)\?\)\?;", 1, "let ghost w2 = self.x224.written(); proof { assert(w2 =~= w1 + frame(erect_domain_bytes())); lemma_prefix_trans(w0, w1, w2); }"),
+          (r"self\.x224\.write\(attach_user_request\(\)\)\?;", 1, "let ghost w3 = self.x224.written(); proof { assert(w3 =~= w2 + frame(attach_user_bytes())); lemma_prefix_trans(w0, w2, w3); }"),
+          (r"self\.user_id = Some\(", 1, "let ghost r3 = self.x224.rest(); let ghost uid = self.user_id->Some_0; proof { lemma_suffix_trans(r3, r2, r0); }"),
+          (r"self\.channel_ids\.insert\(\"user\"", 1, """let ghost cm = self.channel_ids.m();
+        proof {
+            reveal_strlit("global"); reveal_strlit("user"); assert("global"@.len() == 6 && "user"@.len() == 4);
+            assert(cm =~= Map::<Seq<char>, u16>::empty().insert("global"@, 1003u16).insert("user"@, uid));
+            assert(cm.dom() =~= Set::<Seq<char>>::empty().insert("global"@).insert("user"@));
+            assert(cm.dom().len() == 2);
+        }"""),
+          (r"let __channel_ids = hashmap_values", 1, """let ghost v = __channel_ids@;
+        proof {
+            assert(v.len() == 2);
+            assert(cm.contains_key("global"@) && cm.contains_key("user"@));
+            assert(forall|k: Seq<char>| cm.contains_key(k) ==> k == "global"@ || k == "user"@);
+            assert((v[0] == 1003 || v[0] == uid) && (v[1] == 1003 || v[1] == uid));
+            assert((v[0] == 1003 && v[1] == uid) || (v[1] == 1003 && v[0] == uid));
+        }""", "at"),
+          (r"__channel_ids\.iter\(\)", 1, "__it:", "at"),
+          (r"self\.x224\.write\(channel_join_request\(", 1, "let ghost wa = self.x224.written(); let ghost ra = self.x224.rest();", "before"),
+          (r"self\.x224\.write\(channel_join_request\(", 1, "let ghost wb = self.x224.written(); proof { assert(*channel_id == v[__it.index@]); assert(wb =~= wa + frame(channel_join_bytes(uid, *channel_id))); lemma_prefix_trans(w0, wa, wb); }"),
+          (r"if !read_channel_join_confirm\(", 1, "let ghost __x = 0;", "before")],
+   loops={1: """invariant
+            self.user_id == Some(uid), uid >= 1001, self.channel_ids.m() == cm, self.server_data is Some,
+            self.x224.tls() == old(self).x224.tls(),
+            is_prefix(w0, self.x224.written()), is_suffix(self.x224.rest(), r0),
+            __it.seq().len() == 2, v.len() == 2, forall|k: int| 0 <= k < 2 ==> __it.seq()[k] == v[k],
+            __it.index@ == 0 ==> self.x224.written() == w3,
+            __it.index@ == 1 ==> self.x224.written() == w3 + frame(channel_join_bytes(uid, v[0])),
+            __it.index@ == 2 ==> self.x224.written() == w3 + frame(channel_join_bytes(uid, v[0])) + frame(channel_join_bytes(uid, v[1])),"""},
+   post="""proof { if r is Ok {
+        assert(self.x224.written() == w3 + frame(channel_join_bytes(uid, v[0])) + frame(channel_join_bytes(uid, v[1])));
+        assert((frame(ci) + frame(channel_join_bytes(uid, v[0])) + frame(channel_join_bytes(uid, v[1]))).len() > 0);
+        assert(self.x224.written() =~= w0 + frame(ci) + frame(erect_domain_bytes()) + frame(attach_user_bytes()) + frame(channel_join_bytes(uid, v[0])) + frame(channel_join_bytes(uid, v[1])));
+   } }""",
    ensures=FRAME_CL + [("C03", "connected", "r is Ok ==> final(self).connected() && final(self).chans().contains_key(\"user\"@) && final(self).chans()[\"global\"@] == 1003 && final(self).chans()[\"user\"@] == final(self).uid()->Some_0 && final(self).server_data is Some"),
                        ("C03", "sequence-in-order", """r is Ok ==> exists|ci: Seq<u8>, c1: u16, c2: u16| #[trigger] (frame(ci) + frame(channel_join_bytes(final(self).uid()->Some_0, c1)) + frame(channel_join_bytes(final(self).uid()->Some_0, c2))).len() > 0
                             && ((c1 == 1003 && c2 == final(self).uid()->Some_0) || (c2 == 1003 && c1 == final(self).uid()->Some_0))
                             && final(self).written() =~= old(self).written() + frame(ci) + frame(erect_domain_bytes()) + frame(attach_user_bytes())
                                 + frame(channel_join_bytes(final(self).uid()->Some_0, c1)) + frame(channel_join_bytes(final(self).uid()->Some_0, c2))""")])
-MF("write", impl=r"Client<S>", props=["C11", "C12", "C03", "C04"], fuel=8, **MCS_WRITE)
+MF("write", impl=r"Client<S>", props=["C11", "C12", "C03", "C04"], fuel=8, pre="proof { lemma_pdu_headers(); }", **MCS_WRITE)
 MF("read", impl=r"Client<S>", props=["C05", "C06", "C10"],
    body_sub=[(r"self\.channel_ids\.iter\(\)\.find\(\|x\| \*x\.1 == channel_id\)", "hashmap_find_by_value(&self.channel_ids, channel_id)")], **MCS_READ)
-MF("shutdown", impl=r"Client<S>", props=["C03"], fuel=8,
+MF("shutdown", impl=r"Client<S>", props=["C03"], fuel=8, pre="proof { lemma_pdu_headers(); }",
    ensures=[("C03", "disconnect-provider-ultimatum", "r is Ok ==> final(self).written() =~= old(self).written() + frame(disconnect_ultimatum_bytes())"),
             (None, "frame", "final(self).rest() == old(self).rest() && final(self).same_session(old(self)) && is_prefix(old(self).written(), final(self).written())")])
 MF("is_rdp_version_5_plus", impl=r"Client<S>", props=["C03"], requires=["self.server_data is Some"])
